@@ -691,9 +691,11 @@ def allclose(a, b, rtol=1e-5, atol=1e-8, equal_nan=False):
 
 
 def array_equal(a, b, equal_nan=False):
+    if a is None or b is None:
+        return a is None and b is None     # 0-d object arrays: equal only to each other
     try:
         a, b = asarray(a), asarray(b)
-    except Exception:
+    except (Exception, ShimUnsupported):
         return False
     if a.shape != b.shape:
         return False
